@@ -28,7 +28,7 @@ use crate::compiler::sexp::{decode_string, printable, SExp};
 use crate::compiler::srcloc::Srcloc;
 use crate::compiler::StartOfCodegenOptimization;
 use crate::compiler::{BasicCompileContext, CompileContextWrapper};
-use crate::util::{toposort, u8_from_number, TopoSortItem};
+use crate::util::{toposort, u8_from_number, Number, TopoSortItem};
 
 const MACRO_TIME_LIMIT: usize = 1000000;
 const CONST_EVAL_LIMIT: usize = 1000000;
@@ -151,11 +151,11 @@ fn create_name_lookup_(
     name: &[u8],
     env: Rc<SExp>,
     find: Rc<SExp>,
-) -> Result<u64, CompileErr> {
+) -> Result<Number, CompileErr> {
     match find.borrow() {
         SExp::Atom(l, a) => {
             if *a == *name {
-                Ok(1_u64)
+                Ok(bi_one())
             } else {
                 Err(CompileErr(
                     l.clone(),
@@ -170,7 +170,7 @@ fn create_name_lookup_(
         SExp::Integer(l, i) => {
             let a = u8_from_number(i.clone());
             if a == *name {
-                Ok(1_u64)
+                Ok(bi_one())
             } else {
                 Err(CompileErr(
                     l.clone(),
@@ -185,15 +185,18 @@ fn create_name_lookup_(
         SExp::Cons(l, head, rest) => {
             if let Some((capture, substructure)) = is_at_capture(head.clone(), rest.clone()) {
                 if *capture == *name {
-                    Ok(1_u64)
+                    Ok(bi_one())
                 } else {
                     create_name_lookup_(l.clone(), name, env, substructure)
                 }
             } else {
                 create_name_lookup_(l.clone(), name, env.clone(), head.clone())
-                    .map(|v| Ok(2 * v))
+                    // Paths are arbitrary precision: a parameter list can be
+                    // deeper than the bits of any machine integer.
+                    .map(|v| Ok(v * 2_u32.to_bigint().unwrap()))
                     .unwrap_or_else(|_| {
-                        create_name_lookup_(l.clone(), name, env, rest.clone()).map(|v| 2 * v + 1)
+                        create_name_lookup_(l.clone(), name, env, rest.clone())
+                            .map(|v| v * 2_u32.to_bigint().unwrap() + bi_one())
                     })
             }
         }
@@ -297,7 +300,7 @@ fn create_name_lookup(
                 |i| {
                     // Determine if it's a defun.  If so we can ensure that it's
                     // callable like a lambda by repeating the left env into it.
-                    let find_program = Rc::new(SExp::Integer(l.clone(), i.to_bigint().unwrap()));
+                    let find_program = Rc::new(SExp::Integer(l.clone(), i));
                     if as_variable && is_defun_in_codegen(compiler, name) {
                         // It's a defun.  Harden the result so it is callable
                         // directly by the CLVM 'a' operator.
